@@ -11,3 +11,14 @@ func GiantZeros(n uint64) (b []byte, release func()) {
 	}
 	return m, func() { syscall.Munmap(m) }
 }
+
+// GiantWithPrefix returns a slice of n bytes that starts with prefix and is zero afterwards (private no-reserve
+// mapping: only the pages holding the prefix are committed), or nil if the mapping is refused.
+func GiantWithPrefix(n uint64, prefix []byte) (b []byte, release func()) {
+	m, err := syscall.Mmap(-1, 0, int(n), syscall.PROT_READ|syscall.PROT_WRITE, syscall.MAP_ANON|syscall.MAP_PRIVATE|syscall.MAP_NORESERVE)
+	if err != nil {
+		return nil, func() {}
+	}
+	copy(m, prefix)
+	return m, func() { syscall.Munmap(m) }
+}
